@@ -52,7 +52,7 @@ Proof.
     { intros ->. unfold flight_bytes in B. cbn in B. rewrite <- B in Hn. cbn in Hn. lia. }
     exists segs. split; [|auto]. subst t0.
     unfold queue_pending_fin. tcb_simpl. rewrite Hf. cbn [andb]. tcb_simpl.
-    unfold enqueue, hb_wnd, hb_ack, hb_fin, hb_flag, hb. cbn [h_ctl c_syn c_fin orb]. tcb_simpl.
+    unfold enqueue, hb_wnd, hb_ack, hb_fin, hb_flag, hb, ctl0. cbn [h_ctl c_syn c_fin c_urg c_psh c_rst c_ack orb h_sport h_dport h_seq h_ack h_wnd h_urg]. tcb_simpl.
     rewrite <- (map_app _ segs [_]) || idtac.
     change [mkTx ?s true] with (map (fun s => mkTx s true) [s]) || idtac.
     rewrite Hrw.
